@@ -36,7 +36,7 @@ check on the then-unchanged tree.
 from harness import framework
 from harness import tmpl_driver as D
 
-FAMS = ["lex", "text", "control", "while", "try", "tryloop", "apply", "loader", "ws", "errors"]
+FAMS = ["lex", "text", "control", "while", "try", "tryloop", "apply", "loader", "ws", "errors", "errors2"]
 
 
 def fams(names):
@@ -85,16 +85,15 @@ def run_traces(ctx, n, err_rate, salt=0):
 
 
 def run(ctx):
-    # 1. model checking: the layers of the specification agree on every enumerated template
-    #    The generation run below *is* the model-checking run of the quick tier: Gen_TemplateLang.cfg carries the
-    #    INVARIANT lines of MC_TemplateLang.cfg and TLC checks them on every template it dumps for the replay.
-    #    The thorough tier additionally runs the MC config (no dump) one token deeper than the replayed set for
-    #    the families where that is affordable.  (-coverage is unusable on this spec, see tmpl_driver.mc_plain.)
-    if not ctx.quick:
-        D.mc_plain(ctx, "TemplateLang", "MC_TemplateLang.cfg", {"Fams": fams(["lex", "control", "tryloop", "apply"]), "Grow": 3},
-                   timeout=1500)
-    # 2. spec -> code: every enumerated template through the real compiler
-    n = run_family_replay(ctx, FAMS, ctx.pick(1, 2))
+    # 1 + 2. model checking and spec -> code in one pass per family group: Gen_TemplateLang.cfg carries the
+    #    INVARIANT lines of MC_TemplateLang.cfg, TLC checks them on every template it enumerates and dumps, and
+    #    every dumped template goes through the real compiler.  (-coverage is unusable on this specification, see
+    #    tmpl_driver.mc_plain; MC_TemplateLang.cfg is the same model without the dump, for use by hand.)
+    if ctx.quick:
+        n = run_family_replay(ctx, FAMS, 1)
+    else:
+        n = run_family_replay(ctx, ["lex", "text", "control", "tryloop", "apply", "loader", "ws"], 2)
+        n += run_family_replay(ctx, ["errors", "errors2", "try", "while"], 2)
     ctx.cov["exhaustive"] = True
     # 3. code -> spec: larger random templates, TLC lexes / parses / evaluates the recorded text
     run_traces(ctx, ctx.pick(600, 10000), 0.3)
